@@ -1,7 +1,7 @@
 package main
 
-// zstd-compress: stdin bytes -> zstd frame on stdout (the tree only links the klauspost decoder into mlr; the
-// check needs a .zst input to see what in-place mode does with it).
+// zstd-compress / zstd-decompress: stdin bytes -> stdout.  The check needs .zst inputs for in-place mode and has to
+// verify that the rewritten file is a zstd frame holding the expected text (no zstd module in the Python here).
 
 import (
 	"bufio"
@@ -13,6 +13,7 @@ import (
 
 func init() {
 	subcommands["zstd-compress"] = cmdZstdCompress
+	subcommands["zstd-decompress"] = cmdZstdDecompress
 }
 
 func cmdZstdCompress(args []string, in *bufio.Scanner, out *bufio.Writer) {
@@ -26,4 +27,16 @@ func cmdZstdCompress(args []string, in *bufio.Scanner, out *bufio.Writer) {
 	}
 	enc.Write(data)
 	enc.Close()
+}
+
+func cmdZstdDecompress(args []string, in *bufio.Scanner, out *bufio.Writer) {
+	dec, err := zstd.NewReader(os.Stdin)
+	if err != nil {
+		os.Exit(1)
+	}
+	defer dec.Close()
+	if _, err := io.Copy(out, dec); err != nil {
+		out.Flush()
+		os.Exit(1)
+	}
 }
